@@ -42,7 +42,7 @@ RPREFIXES = ['', ' ', 'foo', 'foo ', 'Foo_.-bar', 'foo-', 'foo.', 'foo[', 'foo[a
              'foo @', 'foo @ ', 'foo @ https://h/p', 'foo @ https://h/p;', 'foo @ https://h/p#', 'foo @ https://h;', 'foo @ https://h?q#', 'foo @ https://h/p ', 'foo @ https://h/p ;', 'foo @ file:///a', 'foo @ ${HOME}', 'foo @ git+https://h/p@v1',
              'foo ;', "foo ; os_name == 'a'", "foo ; os_name == 'a' ", "foo[a]>=1;python_version<'3.8' and", 'https://h/p', './p', '/p', 'foo.whl', 'foo.tar.gz', 'é', 'foo é']
 UPREFIXES = ['', ' ', 'https://h/p', 'https://h/p;', 'https://h/p#', 'https://h/p;[a]', 'https://h/p[', 'https://h/p[a', 'https://h/p[a]', 'https://h/p[a] ', 'https://h/p[a] ;', "https://h/p ; os_name == 'a'",
-             './p', '/p', '/p[a,b]', 'file:///a/b', 'file://localhost/a', 'foo.whl', '${HOME}/p', 'git+https://h/p@v1', 'C:\\p', '/p#[a]', '/p [a]', '/p;[a]', 'https://h/p;[a]\u3000', '/p#[a]\u3000']
+             './p', '/p', '/p[a,b]', 'file:///a/b', 'file://localhost/a', 'foo.whl', '${HOME}/p', 'git+https://h/p@v1', 'C:\\p', '/p#[a]', '/p [a]', '/p;[a]', ' /p[', '  https://h/é[', ' /pkgs/café[', '\t/p[a', 'https://h/p;[a]\u3000', '/p#[a]\u3000']
 ETOKENS = [' ', '\u3000', 'a', 'B', '1', '-', '_', '.', ',', '[', ']', 'é', '😀', ';', '\n']
 EPREFIXES = ['', '[', '[a', '[a-', '[a,', '[a ', '[a]', '[ a , b', 'a', ' [a]']
 
